@@ -47,12 +47,13 @@ type cubicGen struct {
 	cutMarker        int64 // maxSentPN at the last observed loss-induced reduction; -1 = none / reset
 	belowMinSinceMtu bool
 	changed          bool
+	nomon            bool // arbitrary-initial-window cases (non-production constructor): correspondence only
 	dist             map[string]int
 	reported         map[string]bool
 }
 
 func (g *cubicGen) monfail(key, desc string) {
-	if g.reported[key] {
+	if g.nomon || g.reported[key] {
 		return
 	}
 	g.reported[key] = true
@@ -95,6 +96,9 @@ func (g *cubicGen) do(kind string, opTerm string, f func() int64) (ret int64, pa
 }
 
 func (g *cubicGen) monitor(kind string, b, a congestion.VerifState, panicked bool) {
+	if g.nomon {
+		return
+	}
 	if panicked {
 		if kind == "setmds-dec" {
 			return // documented "congestion BUG" panic on a decreasing size, nothing else
@@ -520,6 +524,43 @@ func (g *cubicGen) minAfterMtuWitness() {
 	g.do("setmds", u.App("SetMDS", "1452"), func() int64 { g.v.SetMaxDatagramSize(1452); return 0 })
 }
 
+// minAfterMtuWitnessProd: the same finding reached only through events the ackhandler issues
+// (OnPacketSent / OnPacketAcked / OnCongestionEvent / SetMaxDatagramSize), packet numbers
+// increasing — the Coq list witness_prod.
+func (g *cubicGen) minAfterMtuWitnessProd() {
+	sent := func(t, pn int64) {
+		g.do("sent", u.App("Sent", u.Z(t), u.Z(pn), "1280", "true", u.Z(g.srtt())), func() int64 { g.v.OnPacketSent(t, pn, 1280, true); return 0 })
+		g.maxSentPN = pn
+	}
+	lost := func(pn int64) {
+		b := g.v.State()
+		g.do("lost", u.App("Lost", u.Z(pn), "1280", "1280", "0"), func() int64 { g.v.OnCongestionEvent(pn, 1280, 1280); return 0 })
+		if g.v.State().Cwnd < b.Cwnd {
+			g.cutMarker = g.maxSentPN
+		}
+	}
+	for i := int64(0); i < 5; i++ {
+		sent(10*(i+1), i)
+		lost(i)
+	}
+	for i := int64(5); i < 10; i++ {
+		sent(55+i, i)
+	}
+	for i := int64(5); i < 10; i++ {
+		b := g.v.State()
+		g.do("acked", u.App("Acked", u.Z(i), "1280", "6400", u.Z(95+i), "0"), func() int64 { g.v.OnPacketAcked(i, 1280, 6400, 95+i); return 0 })
+		g.monitorGrowth(b, g.v.State(), 6400)
+	}
+	for i := int64(10); i < 13; i++ {
+		sent(10*(i-3), i)
+		lost(i)
+	}
+	g.do("setmds", u.App("SetMDS", "1452"), func() int64 { g.v.SetMaxDatagramSize(1452); return 0 })
+	if c := g.v.Cwnd(); c != 2799 {
+		fmt.Fprintf(g.w, "INFO\tproduction-path witness ended with cwnd %d (expected 2799)\n", c)
+	}
+}
+
 func runCubic(w *bufio.Writer, seed uint64, n int, _ []string) {
 	root := u.NewRng(seed)
 	dist := map[string]int{}
@@ -532,8 +573,8 @@ func runCubic(w *bufio.Writer, seed uint64, n int, _ []string) {
 		if r.Chance(1, 12) {
 			mds0 = int64(r.Range(1, 3000))
 		}
-		if ci == 0 {
-			reno, mds0 = true, 1280 // fixed first case: replay of the Coq witness C20_min_after_mtu_refuted
+		if ci <= 1 {
+			reno, mds0 = true, 1280 // fixed first cases: replay of the Coq witnesses C20_min_after_mtu_refuted(_prod)
 		}
 		g := &cubicGen{r: r, w: w, v: congestion.VerifNewSender(mds0, reno), now: int64(r.Range(1, 1_000_000_000)), cutMarker: -1,
 			mds0: mds0, maxSentPN: -1, dist: dist, reported: reported}
@@ -546,7 +587,7 @@ func runCubic(w *bufio.Writer, seed uint64, n int, _ []string) {
 			dist["case-cubic"]++
 		}
 		// initial RTT: default 100ms, or restored from a token (arbitrary, incl. extremes)
-		if ci != 0 && r.Chance(1, 5) {
+		if ci > 1 && r.Chance(1, 5) {
 			irtt := r.Pick(1, 999, 1000, 1_000_000, 333_000_000, 1<<40, 1<<62)
 			g.v.Rtt.SetInitialRTT(durationNs(irtt))
 			dist["initial-rtt-set"]++
@@ -554,6 +595,11 @@ func runCubic(w *bufio.Writer, seed uint64, n int, _ []string) {
 		g.do("inslowstart", "QInSlowStart", func() int64 { return b2i(g.v.InSlowStart()) })
 		if ci == 0 {
 			g.minAfterMtuWitness()
+		}
+		if ci == 1 {
+			g.reported = map[string]bool{} // report the finding for this witness too
+			g.minAfterMtuWitnessProd()
+			g.reported = reported
 		}
 		nops := r.Range(4, 36)
 		ackruns := 0
@@ -602,6 +648,47 @@ func runCubic(w *bufio.Writer, seed uint64, n int, _ []string) {
 		if ci < 2 {
 			fmt.Fprintf(w, "SAMPLE\tmds0=%d reno=%v ops: %s\n", mds0, reno, strings.Join(g.trace, " "))
 		}
+	}
+	// arbitrary initial window through the unexported constructor: the float64 cut and the
+	// window arithmetic on extreme values (correspondence only, no property monitors)
+	for ci := 0; ci < n/6+4; ci++ {
+		r := root.Fork()
+		mds0 := r.Pick(1, 1, 7, 1280, 1452)
+		var icw int64
+		switch r.Intn(6) {
+		case 0:
+			icw = r.Pick(0, 1, 2, 3, 90, 170, 180, 330, 650, 10, 20)
+		case 1:
+			icw = int64(r.Range(0, 100000))
+		case 2:
+			icw = 1<<53 + int64(r.Range(-4, 4))
+		case 3:
+			icw = int64(r.U64() >> uint(r.Range(2, 40)))
+		case 4:
+			icw = 1<<uint(r.Range(53, 61)) + int64(r.Range(-2000, 2000))
+		default:
+			icw = int64(r.U64()>>2) | 1<<61
+		}
+		imax := icw + int64(r.Range(0, 5000))
+		reno := !r.Chance(1, 8)
+		g := &cubicGen{r: r, w: w, v: congestion.VerifNewSenderW(mds0, reno, icw, imax), now: 1000, cutMarker: -1, mds0: mds0, maxSentPN: -1,
+			dist: dist, reported: reported, nomon: true}
+		dist["case-arbitrary-initial-window"]++
+		g.do("inslowstart", "QInSlowStart", func() int64 { return b2i(g.v.InSlowStart()) })
+		for k := 0; k < r.Range(2, 8); k++ {
+			switch r.Intn(5) {
+			case 0, 1:
+				g.opSent()
+				g.opLost()
+			case 2:
+				g.opAcked()
+			case 3:
+				g.do("migrate", "Migrate", func() int64 { g.v.OnConnectionMigration(); return 0 })
+			case 4:
+				g.opQuery()
+			}
+		}
+		fmt.Fprintf(w, "CASE 1 %s\n", u.App("CubicCaseW", u.Z(mds0), u.B(reno), u.Z(icw), u.Z(imax), u.List(g.steps)))
 	}
 	for k, v := range dist {
 		fmt.Fprintf(w, "DIST\t%s\t%d\n", k, v)
